@@ -210,14 +210,11 @@ theorem advanceTo_wf {s : Store} (h : StoreWF s) (o : Nat) : StoreWF (advanceTo 
 theorem computeUpdate_wf {s : Store} (h : StoreWF s) (u : Update) (b t o : Nat) (c : AMap Felt Nat)
     {chain : Reader} {aff : PreConf}
     (hc : computeUpdate s u b t o c = .changed chain aff) : WF chain := by
-  have boot : ∀ {chain aff},
-      (match u with
-        | .block ident verOk txs => bootstrapChain ident verOk txs b o c
-        | _ => Outcome.err .bootstrapVariant) = .changed chain aff → WF chain := by
+  have boot : ∀ {chain aff}, bootstrap u b o c = .changed chain aff → WF chain := by
     intro chain aff hb
     cases u with
     | block ident verOk txs =>
-      simp only [bootstrapChain] at hb
+      simp only [bootstrap, bootstrapChain] at hb
       split at hb
       · cases hb
       · split at hb
@@ -306,7 +303,7 @@ theorem computeUpdate_wf {s : Store} (h : StoreWF s) (u : Update) (b t o : Nat) 
                   · cases hc
                   · split at hc
                     · cases hc
-                    · rename_i hd0 _ next0 hn
+                    · rename_i hd0 _ _ next0 hn
                       cases hc
                       have := adaptDelta_number hn
                       have hd0' : cur.tip - b = 0 := by simpa using hd0
